@@ -218,6 +218,7 @@ def explore_sweeten(ctx):
             ctx.violation('sweeten calls {} but the value calls for {} (bases first, own body only)'.format(got, want),
                           dict(key='sweeten-trace:' + repr(v)[:50], classes=model.source[-2500:], value=repr(v)[:300]))
     fixed_sweeten_findings(ctx, yaml, yatiml)
+    shared_class_scenarios(ctx, yaml, yatiml)
 
 
 def fixed_sweeten_findings(ctx, yaml, yatiml):
@@ -260,6 +261,81 @@ def fixed_sweeten_findings(ctx, yaml, yatiml):
     if log:
         ctx.violation('enum Col(Mixin, Enum) defines no _yatiml_sweeten but the unregistered mix-in\'s hook '
                       'ran: {}'.format(log), dict(key='sweeten-enum-inherited', log=repr(log)))
+
+
+def shared_class_scenarios(ctx, yaml, yatiml):
+    """the same class objects used by several load / dump functions that register different subsets of
+    the hierarchy: which hooks run is decided by each function's own registrations, in whatever order
+    the functions are created and used"""
+    rng = ctx.rng
+    for _ in range(ctx.budget(12, 120)):
+        log = []
+
+        def mk(name, base, nparams):
+            def sav(cls, node, _n=name):
+                log.append(('sav', _n))
+
+            def swe(cls, node, _n=name):
+                log.append(('swe', _n))
+            names = ['a', 'b', 'c'][:nparams]
+            src = 'def __init__(self, {}):\n{}'.format(
+                ', '.join(n + ': int' for n in names), ''.join('    self.{0} = {0}\n'.format(n) for n in names))
+            ns = {}
+            exec(src, ns)
+            body = {'__init__': ns['__init__']}
+            if rng.random() < 0.85:
+                body['_yatiml_savorize'] = classmethod(sav)
+                body['_yatiml_sweeten'] = classmethod(swe)
+            return type(name, (base,) if base else (), body)
+        A = mk('Top', None, 1)
+        B = mk('Mid', A, 2)
+        C = mk('Leaf', B, 3)
+        chain = [A, B, C]
+        hooked = {k.__name__ for k in chain if '_yatiml_savorize' in vars(k)}
+        subsets = [[C], [C, B], [C, A], [C, B, A], [B], [B, A]]
+        rng.shuffle(subsets)
+        funcs = []
+        for regs in subsets[:rng.randint(2, 5)]:
+            target = regs[0]
+            order = list(regs)
+            rng.shuffle(order)
+            funcs.append((target, regs, yatiml.load_function(target, *order), yatiml.dumps_function(*order)))
+        uses = funcs * 2
+        rng.shuffle(uses)
+        for target, regs, load, dumps in uses:
+            n = len([k for k in chain if chain.index(k) <= chain.index(target)])
+            text = '{' + ', '.join('{}: {}'.format(x, i) for i, x in enumerate(['a', 'b', 'c'][:n])) + '}'
+            # the documented rule: registered direct bases first, recursively, each class's own hook once
+            want = []
+
+            def walk(k):
+                for b in k.__bases__:
+                    if b in regs:
+                        walk(b)
+                if k.__name__ in hooked:
+                    want.append(k.__name__)
+            walk(target)
+            for side in ('sav', 'swe'):
+                del log[:]
+                try:
+                    if side == 'sav':
+                        obj = load(text)
+                    else:
+                        dumps(target(*range(n)))
+                except Exception as e:  # noqa
+                    ctx.violation('a function over {} raises {} after other functions were used'.format(
+                        [k.__name__ for k in regs], type(e).__name__), dict(key='shared-raises:' + side))
+                    continue
+                got = [x[1] for x in log if x[0] == side]
+                ctx.case(('shared-classes', side, tuple(k.__name__ for k in regs), tuple(got)), nontrivial=True)
+                ctx.count('shared_class_calls')
+                if got != want:
+                    ctx.violation('{} hooks {} ran for {} with {} registered; the rule calls for {} (other '
+                                  'functions over the same classes exist)'.format(
+                                      'savorize' if side == 'sav' else 'sweeten', got, target.__name__,
+                                      [k.__name__ for k in regs], want),
+                                  dict(key='shared-classes:{}:{}'.format(side, target.__name__),
+                                       registered=[k.__name__ for k in regs], got=got, want=want))
 
 
 def search(ctx, broken):
